@@ -14,6 +14,12 @@ TRUSTED = [
     "translator/c10.py (fail-closed python-ast reader of ParameterValues.__init__/.boundaries, _set_bound, "
     "convert_to_parameters, update_processor, __init__/get_bounds, fitness): what it extracts is believed; the "
     "description it emits is also run against the implementation on every case (mismatches_g, hist_mismatches)",
+    "translator/c10_norm.py: behaviour-preserving source normalisations applied before the reader (helper calls of "
+    "the same module / class / package inlined with their arguments, single-assignment aliases of pure expressions "
+    "substituted, guard clauses / continue == nested if-else, match on literals == if/elif, list comprehension / "
+    "sum() == loop, conditional expression == if/else, tuple pack/unpack, slice() == a:b, module-level literal "
+    "constants). Assumed: attribute / property loads and len() are side-effect free (an attribute chain may be read "
+    "once or several times), `self.m` resolves to the method of the class that is read (no overriding subclass)",
     "correspondence harness: harness/props/c10.py generators, harness/drivers/c10.py, probes/verif_probes_c10.py "
     "(thread-local capture of the arguments a model receives), float.hex() -> exact rationals",
     "modelled, not verified: numpy slicing/assignment semantics (a[..., s:t] = f(a[..., s:t]) clamps at the end), "
